@@ -619,8 +619,8 @@ func init() {
 			"the driver itself (AcquirePriv, SendCommand(s), SendConfig(s) with/without WithPrivilegeLevel, SendInteractive), plus unknown-target probes. Sampled part: random " +
 			"trees with 6-8 levels (chain/star/caterpillar/Pruefer) with the same tour, and random operation sequences (<=12 ops) on trees with 2-6 levels; names, prompts, " +
 			"transition commands, which edges ask for the secret, start mode, default level, newline, return char, read size, read delay, search depth and read segmentation are PRNG-drawn. " +
-			"Failed-hop family (40 quick / 600 thorough): random sequences in which, during one call that needs >=1 hop, the device executes hop k of the path " +
-			"(mode changes) but holds its reaction back until the call (run with a 400 ms operation timeout) has failed; the reaction is then released and drained, and 2-4 more calls follow, SendCommand(s) first, " +
+			"Failed-hop family (40 quick / 400 thorough): random sequences in which, during one call that needs >=1 hop, the device executes hop k of the path " +
+			"(mode changes) but holds its reaction back until the call (run with a 500 ms operation timeout) has failed; the reaction is then released and drained, and 2-4 more calls follow, SendCommand(s) first, " +
 			"judged by the usual oracle from the device's true mode. Non-trivial = the case contains a call whose tree path has >=2 steps, or that crosses an edge on which the device asked for the secret, or a hop whose reaction was really held back, or a SendCommand(s) call (the operations that consult the cached level) " +
 			"issued while the cached level differs from the device's mode. Distinct = distinct descriptor hash.",
 		Assumptions: []string{
